@@ -7,8 +7,9 @@ import pipeline
 import talgen
 
 PID = 'C06'
-PROOF_MODULES = ['ChamProofs.Props.C06']
-THEOREMS = ['ChamVerif.undouble_no_dollar', 'ChamVerif.undouble_pair', 'ChamVerif.scan_append', 'ChamVerif.C06_own_brace']
+PROOF_MODULES = ['ChamProofs.Props.C06', 'ChamProofs.Ties']
+THEOREMS = ['ChamVerif.undouble_no_dollar', 'ChamVerif.undouble_pair', 'ChamVerif.scan_append', 'ChamVerif.C06_own_brace',
+            'ChamVerif.tie_builder_defaults']
 LEVEL_TEXT = ('Proved in Lean: the bracket/quote scanner the model uses to reject candidates is compositional (scan_append) and therefore an '
               'expression with balanced brackets and closed string literals followed by "}" and anything else is certainly invalid '
               '(C06_own_brace): among the candidates "${ e } … }" none longer than the one ending at the expression\'s own closing brace can be '
